@@ -64,7 +64,8 @@ func (m *MethodScope) resolveVarNameConflict(suggested string) string {
 			if conflict, ok := m.searchVar(suggested); ok {
 				conflict.Name += "1"
 				m.conflicted[suggested] = true
-				n++
+				// The next number has to pass the same checks.
+				continue
 			}
 		}
 		return suggested + strconv.Itoa(n)
